@@ -42,6 +42,13 @@ def perturb(rng):
     for _ in range(rng.randint(0, 5)):
         random_sample(10, 3, True)
         uniform(0.0, 1.0, 2)
+    # other optimizers are CONSTRUCTED (not necessarily run) with other operator parameters
+    for _ in range(rng.randint(1, 2)):
+        which = rng.choice(["GeneticAlgorithm", "SelfCGA", "PDPGA"])
+        extra = dict(tour_size=rng.choice([2, 5, 6]), parents_num=rng.choice([2, 5, 6]), mutation_rate=rng.choice([0.03125, 0.75])) if which == "GeneticAlgorithm" else {}
+        built = getattr(O, which)(lambda x: x.sum(axis=1).astype(np.float64), iters=2, pop_size=8, str_len=5, random_state=rng.randrange(1 << 20), **extra)
+        if rng.random() < 0.5:
+            built.fit()
     other = rng.choice(["GeneticAlgorithm", "DifferentialEvolution", "SHAGA", "jDE"])
     if other in ("GeneticAlgorithm", "SHAGA"):
         getattr(O, other)(lambda x: x.sum(axis=1).astype(np.float64), iters=3, pop_size=8, str_len=6, random_state=rng.randrange(1 << 20)).fit()
